@@ -34,6 +34,7 @@ func c20(c *Ctx) {
 	c20R7(c)
 	c20R8(c)
 	c20R9(c)
+	c20R10(c)
 }
 
 func c20R1(c *Ctx) {
